@@ -965,7 +965,24 @@ def obligations(tier):
             return q * (np.diag(r) / np.abs(np.diag(r)))
 
         u1, u2 = ru(2), ru(4)
+
+        class Opaque(cirq.Gate):
+            """user-defined gate that only knows its matrix: reaches the QasmUGate / QasmTwoQubitGate fall-back"""
+
+            def __init__(self, m):
+                self._m = m
+
+            def _num_qubits_(self):
+                return int(np.log2(len(self._m)))
+
+            def _unitary_(self):
+                return self._m
+
+        u3 = ru(4)
         return [
+            ('Opaque2.random', lambda qs: Opaque(u3).on(qs[0], qs[2]), u3, [0, 2]),
+            ('Opaque2.fsim', lambda qs: Opaque(np.asarray(D.fsim(0.4, 1.3), dtype=complex)).on(qs[2], qs[1]), D.fsim(0.4, 1.3), [2, 1]),
+            ('Opaque1.random', lambda qs: Opaque(u1).on(qs[2]), u1, [2]),
             ('MatrixGate1', lambda qs: cirq.MatrixGate(u1).on(qs[1]), u1, [1]),
             ('MatrixGate2', lambda qs: cirq.MatrixGate(u2).on(qs[1], qs[0]), u2, [1, 0]),
             ('CZ**0.5', lambda qs: (cirq.CZ**0.5).on(qs[0], qs[1]), D.CZ(0.5), [0, 1]),
@@ -991,7 +1008,7 @@ def obligations(tier):
         steps = [('u', m, axes)]
         compare(cx, text, 3, wrong_steps(steps) if wrong else steps, ver, f'fallback[{nm}]', tol=1e-6)
 
-    add('fallback.concrete', body, 'CONCRETE gates without a QASM form (MatrixGate 1q/2q, fractional CZ/SWAP/CCZ/CCX powers, ISWAP, FSim, XX) through decomposition + QasmUGate/QasmTwoQubitGate (KAK): never dropped, equal within 1e-6', points=[{'choose:gate': i, 'choose:ver': i % 2} for i in range(len(CONC))], kind='concrete', weight=3)
+    add('fallback.concrete', body, 'CONCRETE gates without a QASM form (user-defined matrix-only gates 1q/2q with generic KAK coefficients, MatrixGate 1q/2q, fractional CZ/SWAP/CCZ/CCX powers, ISWAP, FSim, XX) through decomposition + QasmUGate/QasmTwoQubitGate (KAK): never dropped, equal within 1e-6', points=[{'choose:gate': i, 'choose:ver': i % 2} for i in range(len(CONC))], kind='concrete', weight=3)
 
     return obs
 
